@@ -646,7 +646,7 @@ Lemma add_all_at (phi : pgraph -> Prop) x e ce : forall es p c,
   (forall p' c' e', sctx p' c' e' -> In e' es -> enode e' <> enode e -> phi p' ->
                     phi (add_value_store p' c' e')) ->
   (forall p', sctx p' ce e -> phi p' -> In x (pedges (add_value_store p' ce e))) ->
-  ce <= esrc x \/ esrc x = enode e ->
+  ~ In (esrc x) (map enode es) \/ ce <= esrc x \/ esrc x = enode e ->
   In x (pedges (add_all p c es)).
 Proof.
   induction es as [|e0 es IH]; intros p c Ht Hin Hphi Hpres Hat Hsrc; cbn [add_all entry_ids] in *;
@@ -654,7 +654,8 @@ Proof.
   pose proof (tctx_head _ _ _ _ Ht) as Hs. pose proof (tctx_step _ _ _ _ Ht) as Ht'.
   destruct Hin as [Heq | Hin].
   - inversion Heq; subst e0 ce. apply add_all_keeps; [assumption | now apply Hat |].
-    intros Hreg. destruct Hsrc as [Hge | Heq'].
+    intros Hreg. destruct Hsrc as [Hno | [Hge | Heq']].
+    + apply Hno. cbn. now right.
     + assert (Hlt : esrc x < c) by (apply (tctx_reg_lt p c (e :: es) _ Ht); cbn; now right). lia.
     + rewrite Heq' in Hreg. now apply (tctx_head_notin _ _ _ _ Ht).
   - apply (IH _ (next_id c e0)); try assumption.
@@ -662,6 +663,7 @@ Proof.
       intros Heq. apply entry_ids_In in Hin. destruct Hin as [Hin _].
       apply (tctx_head_notin _ _ _ _ Ht). rewrite Heq. now apply in_map.
     + intros p' c' e' Hs' He'. apply Hpres; [assumption | now right].
+    + destruct Hsrc as [Hno | Hsrc]; [left | now right]. intros H. apply Hno. cbn. now right.
 Qed.
 
 Lemma add_all_created x e ce es p c :
@@ -671,7 +673,7 @@ Lemma add_all_created x e ce es p c :
   In x (pedges (add_all p c es)).
 Proof.
   intros Ht Hin Hat Hsrc.
-  apply (add_all_at (fun _ => True) x e ce es p c); [exact Ht | exact Hin | exact I | | | exact Hsrc].
+  apply (add_all_at (fun _ => True) x e ce es p c); [exact Ht | exact Hin | exact I | | | exact (or_intror Hsrc)].
   - intros; exact I.
   - intros p' Hs _. now apply Hat.
 Qed.
@@ -736,7 +738,7 @@ Proof.
       [exact Ht | exact Hin | exact Hx | | |].
     + intros p' c' e' Hs He' Hne Hy. now apply phi_edge_preserved.
     + intros p' Hs Hy. apply (add_value_store_edges p' ce e _ Hs). now apply AE_arg.
-    + left. cbn. unfold read_id. lia.
+    + right. left. cbn. unfold read_id. lia.
   - apply add_all_removes; [assumption | cbn; now apply (entry_reg c es e ce) |].
     destruct Ht as [Hwf [Hc _]]. apply (edge_lt p c _ Hwf Hc Hx).
 Qed.
@@ -812,7 +814,7 @@ Proof.
     [exact Ht | exact Hin | exact Hx | | |].
   - intros p' c' e' Hs He' Hne Hy. now apply phi_edge_preserved.
   - intros p' Hs Hy. apply (add_value_store_edges p' ce e _ Hs). now apply AE_dep.
-  - left. cbn. unfold write_id. lia.
+  - right. left. cbn. unfold write_id. lia.
 Qed.
 
 Theorem C09_dependents_on_write p c es e ce s :
@@ -837,4 +839,174 @@ Proof.
       * congruence.
       * unfold next_id, read_id, write_id in *. destruct (estale e); lia.
       * unfold next_id, read_id, write_id in *. rewrite Hst2 in H. lia.
+Qed.
+
+(** ** B.5 the transformed plan is well formed and acyclic (C07: no late HasACycle) *)
+Theorem transform_wf : forall es p c, tctx p c es -> pgraph_wf (add_all p c es).
+Proof.
+  induction es as [|e es IH]; intros p c Ht; cbn [add_all]; [apply Ht|].
+  apply IH. now apply tctx_step.
+Qed.
+
+Theorem transform_acyclic : forall es p c,
+  tctx p c es -> acyclic (to_graph p) -> acyclic (to_graph (add_all p c es)).
+Proof.
+  induction es as [|e es IH]; intros p c Ht Hac; cbn [add_all]; [assumption|].
+  apply IH; [now apply tctx_step|]. apply add_value_store_acyclic; [|assumption].
+  now apply (tctx_head _ _ _ _ Ht).
+Qed.
+
+(** nodes and kinds of the transformed plan *)
+Theorem transform_nodes m : forall es p c,
+  tctx p c es ->
+  (In m (pnodes (add_all p c es)) <->
+   In m (pnodes p) \/
+   exists e ce, In (e, ce) (entry_ids c es) /\
+                (m = lit_id ce \/ m = read_id ce \/ (estale e = true /\ m = write_id ce))).
+Proof.
+  induction es as [|e0 es IH]; intros p c Ht; cbn [add_all entry_ids].
+  - split; [now left | intros [H | [e [ce [[] _]]]]; assumption].
+  - rewrite (IH _ _ (tctx_step _ _ _ _ Ht)).
+    rewrite (add_value_store_nodes_In p c e0 m (tctx_head _ _ _ _ Ht)). split.
+    + intros [[H | H] | [e [ce [Hin H]]]].
+      * now left.
+      * right. exists e0, c. split; [now left | assumption].
+      * right. exists e, ce. split; [now right | assumption].
+    + intros [H | [e [ce [[Heq | Hin] H]]]].
+      * left. now left.
+      * inversion Heq; subst. left. now right.
+      * right. exists e, ce. split; assumption.
+Qed.
+
+Lemma add_all_kind_old m : forall es p c,
+  tctx p c es -> In m (pnodes p) -> pkind (add_all p c es) m = pkind p m.
+Proof.
+  induction es as [|e es IH]; intros p c Ht Hm; cbn [add_all]; [reflexivity|].
+  pose proof (tctx_head _ _ _ _ Ht) as Hs.
+  rewrite IH; [now apply add_value_store_kind_old | now apply tctx_step |].
+  apply (add_value_store_nodes_In p c e m Hs). now left.
+Qed.
+
+(** C14: the store literal is a Literal, the read is a Call, the write is a Call (stored node) or the
+    Barrier Literal (source); the kinds of the original nodes are unchanged *)
+Theorem transform_kinds : forall es p c e ce,
+  tctx p c es -> In (e, ce) (entry_ids c es) ->
+  let q := add_all p c es in
+  pkind q (lit_id ce) = KLit /\ pkind q (read_id ce) = KCall /\
+  (estale e = true -> pkind q (write_id ce) = if esource e then KLit else KCall).
+Proof.
+  induction es as [|e0 es IH]; intros p c e ce Ht Hin; cbn [add_all entry_ids] in *; [contradiction|].
+  pose proof (tctx_head _ _ _ _ Ht) as Hs. pose proof (tctx_step _ _ _ _ Ht) as Ht'.
+  destruct Hin as [Heq | Hin]; [|now apply IH].
+  inversion Heq; subst e0 ce. cbn zeta. split; [|split].
+  - rewrite add_all_kind_old; [now apply add_value_store_kind_lit | assumption |].
+    apply (add_value_store_nodes_In p c e _ Hs). auto.
+  - rewrite add_all_kind_old; [now apply add_value_store_kind_read | assumption |].
+    apply (add_value_store_nodes_In p c e _ Hs). auto.
+  - intros Hst. rewrite add_all_kind_old; [now apply add_value_store_kind_write | assumption |].
+    apply (add_value_store_nodes_In p c e _ Hs). auto.
+Qed.
+
+Theorem transform_kind_old p c es m :
+  tctx p c es -> In m (pnodes p) -> pkind (add_all p c es) m = pkind p m.
+Proof. intros. now apply add_all_kind_old. Qed.
+
+(** ** B.4 a stale dependent source is read only after the calls it depends on *)
+Lemma barrier_unregistered p c es e ce x :
+  tctx p c es -> In (e, ce) (entry_ids c es) -> estale e = true -> esource e = true ->
+  In x (pedges p) -> edst x = enode e -> ~ In (esrc x) (map enode es) ->
+  In (mke (esrc x) (write_id ce) KDep) (pedges (add_all p c es)).
+Proof.
+  intros Ht Hin Hst Hso Hx Hd Hno.
+  apply (add_all_at (fun p' => In x (pedges p')) _ e ce es p c); [exact Ht | exact Hin | exact Hx | | |].
+  - intros p' c' e' Hs He' _ Hy. apply phi_edge_preserved; [assumption | | assumption].
+    intros Heq. apply Hno. rewrite <- Heq. now apply in_map.
+  - intros p' Hs Hy. apply (add_value_store_edges p' ce e _ Hs). apply AE_barrier; [assumption | assumption |].
+    rewrite <- Hd. now apply pedge_of_In.
+  - left. exact Hno.
+Qed.
+
+Lemma barrier_registered : forall es p c e ce e2 c2 k,
+  tctx p c es -> In (e, ce) (entry_ids c es) -> In (e2, c2) (entry_ids c es) ->
+  estale e = true -> esource e = true -> estale e2 = true ->
+  In (mke (enode e2) (enode e) k) (pedges p) -> enode e2 <> enode e ->
+  reach (to_graph (add_all p c es)) (write_id c2) (write_id ce).
+Proof.
+  induction es as [|e0 es IH]; intros p c e ce e2 c2 k Ht Hin Hin2 Hst Hso Hst2 Hx Hne;
+    cbn [add_all entry_ids] in *; [contradiction|].
+  pose proof (tctx_head _ _ _ _ Ht) as Hs. pose proof (tctx_step _ _ _ _ Ht) as Ht'.
+  assert (Hfresh : forall m, c <= m -> ~ In m (map enode es)).
+  { intros m Hm Hreg. assert (m < c); [|lia]. apply (tctx_reg_lt p c (e0 :: es) m Ht). cbn. now right. }
+  destruct Hin as [Heq | Hin], Hin2 as [Heq2 | Hin2].
+  - inversion Heq; inversion Heq2; subst. now contradiction Hne.
+  - (* the source is processed first: its Barrier gets the edge from [enode e2], which the later step
+       of [e2] moves to [e2]'s write node *)
+    inversion Heq; subst e0 ce.
+    apply reach1, pedge_iff. exists KDep.
+    apply (dep_moved_to_write _ _ es e2 c2 (write_id c)); [exact Ht' | exact Hin2 | | exact Hst2].
+    apply (add_value_store_edges p c e _ Hs). apply AE_barrier; [assumption | assumption |].
+    exact (pedge_of_In p _ Hx).
+  - (* the predecessor is processed first: the edge into the source then leaves its write node (Dep) or
+       its read node (argument), which is what the Barrier is wired to later *)
+    inversion Heq2; subst e0 c2.
+    destruct (is_dep k) eqn:Ek.
+    + apply is_dep_true in Ek. subst k.
+      apply reach1, pedge_iff. exists KDep.
+      apply (barrier_unregistered _ _ es e ce (mke (write_id c) (enode e) KDep));
+        [exact Ht' | exact Hin | exact Hst | exact Hso | | reflexivity |].
+      * apply (add_value_store_edges p c e2 _ Hs). now apply AE_dep.
+      * apply Hfresh. cbn. unfold write_id. lia.
+    + apply is_dep_false in Ek. apply (reachS _ _ (read_id c)).
+      * apply reach1, pedge_iff. exists KDep. apply add_all_keeps; [exact Ht' | |].
+        -- apply (add_value_store_edges p c e2 _ Hs). now apply AE_write_read.
+        -- apply Hfresh. cbn. unfold write_id. lia.
+      * apply pedge_iff. exists KDep.
+        apply (barrier_unregistered _ _ es e ce (mke (read_id c) (enode e) k));
+          [exact Ht' | exact Hin | exact Hst | exact Hso | | reflexivity |].
+        -- apply (add_value_store_edges p c e2 _ Hs). now apply AE_arg.
+        -- apply Hfresh. cbn. unfold read_id. lia.
+  - apply (IH _ _ e ce e2 c2 k); try assumption.
+    apply phi_edge_preserved; [exact Hs | | exact Hx]. cbn. intros Heq.
+    apply (tctx_head_notin _ _ _ _ Ht). rewrite Heq. now apply (entry_reg _ _ _ _ Hin2).
+Qed.
+
+Theorem C09_stale_source_barrier p c es e ce :
+  tctx p c es -> In (e, ce) (entry_ids c es) -> estale e = true -> esource e = true ->
+  let q := add_all p c es in
+  In (mke (write_id ce) (read_id ce) KDep) (pedges q) /\
+  forall pr, edge (to_graph p) pr (enode e) ->
+    (* an unregistered predecessor is wired to the Barrier directly *)
+    (~ In pr (map enode es) -> In (mke pr (write_id ce) KDep) (pedges q) /\ reach (to_graph q) pr (write_id ce)) /\
+    (* a stale registered predecessor: its write node precedes the Barrier *)
+    (forall e2 c2, In (e2, c2) (entry_ids c es) -> enode e2 = pr -> estale e2 = true -> pr <> enode e ->
+                   reach (to_graph q) (write_id c2) (write_id ce)).
+Proof.
+  intros Ht Hin Hst Hso q. subst q. split.
+  - now apply (C09_write_then_read p c es e ce Ht Hin).
+  - intros pr Hpr. apply pedge_iff in Hpr. destruct Hpr as [k Hx]. split.
+    + intros Hno.
+      assert (H : In (mke pr (write_id ce) KDep) (pedges (add_all p c es))).
+      { apply (barrier_unregistered p c es e ce _ Ht Hin Hst Hso Hx); [reflexivity | exact Hno]. }
+      split; [exact H|]. apply reach1, pedge_iff. now exists KDep.
+    + intros e2 c2 Hin2 Heq Hst2 Hne. subst pr.
+      now apply (barrier_registered es p c e ce e2 c2 k).
+Qed.
+
+Lemma acyclic_no_self_loop g a : acyclic g -> ~ edge g a a.
+Proof. intros [rank Hr] H. apply Hr in H. lia. Qed.
+
+(** in an acyclic plan the side condition [pr <> enode e] is automatic, and the Barrier precedes the read *)
+Corollary C09_stale_source_after_deps p c es e ce e2 c2 :
+  tctx p c es -> acyclic (to_graph p) ->
+  In (e, ce) (entry_ids c es) -> estale e = true -> esource e = true ->
+  In (e2, c2) (entry_ids c es) -> estale e2 = true -> edge (to_graph p) (enode e2) (enode e) ->
+  reach (to_graph (add_all p c es)) (write_id c2) (read_id ce).
+Proof.
+  intros Ht Hac Hin Hst Hso Hin2 Hst2 Hpr.
+  destruct (C09_stale_source_barrier p c es e ce Ht Hin Hst Hso) as [Hwr Hall].
+  destruct (Hall _ Hpr) as [_ Hreg].
+  apply (reachS _ _ (write_id ce)).
+  - apply (Hreg e2 c2 Hin2 eq_refl Hst2). intros Heq. rewrite Heq in Hpr.
+    now apply (acyclic_no_self_loop _ _ Hac) in Hpr.
+  - apply pedge_iff. now exists KDep.
 Qed.
